@@ -8,7 +8,7 @@ Prints one JSON line with the results.
 """
 import json, os, subprocess, sys, shutil, time
 
-LAB = "/tmp/seedlab"
+LAB = os.environ.get("SEEDLAB", "/tmp/seedlab")
 LREPO = f"{LAB}/repo"
 LVERIF = f"{LAB}/verif"
 
@@ -54,6 +54,8 @@ def main():
         rc1, out1 = sh(f"bash {d}/run.sh", cwd=LREPO, timeout=2400)
         res["demo_with_change_rc"] = rc1
         res["demo_with_change_tail"] = out1[-600:]
+        # remove the demo files again (keep only the source change) before running the crates' own tests
+        sh("git stash -q && git clean -fdq -e target && git stash pop -q", cwd=LREPO)
         t0 = time.time()
         rct, outt = sh("timeout 2400 cargo test --workspace --no-fail-fast --offline 2>&1 | grep -E '^test result|^test .* FAILED'", cwd=LREPO, timeout=2600)
         passed = sum(int(l.split(" passed")[0].split()[-1]) for l in outt.splitlines() if l.startswith("test result") and " passed" in l)
